@@ -151,7 +151,7 @@ def run_validate_confirm(w, fam, scen, label, v, counts, sigfn, recvs=("client",
         w.run_harness("recv", sf2, of2)
         obs2 = [normalise(o) for o in read_ndjson(of2)]
         rej2, _, _, where2 = validate(w, fam, obs2, label + "-confirm")
-        vlib_unreproduced(v, rej, rej2)
+        vlib_unreproduced(v, rej, rej2, total=len(obs))
         exp = {}
         k = 0
         for s in scen:
